@@ -197,9 +197,15 @@ def gen(ctx, i, cls):
                 l["object_id"] = rng.integers(lo, lo + 3, len(l)).astype(float)
     # a table index that is not 0..n-1 and not ascending (what subsets with reset_index=False, sort_values or concat leave behind)
     for l in lists:
-        if len(l) and rng.random() < 0.35:
-            kind = int(rng.integers(0, 3))
-            l.index = rng.permutation(len(l)) if kind == 0 else (np.arange(len(l))[::-1] * 3 + 2 if kind == 1 else np.sort(rng.choice(np.arange(3 * len(l) + 4), len(l), replace=False))[::-1])
+        if len(l) and rng.random() < 0.5:
+            kind = int(rng.integers(0, 5))
+            if kind == 3:       # repeated labels: two lists glued with pd.concat without ignore_index
+                h = (len(l) + 1) // 2
+                l.index = np.concatenate([np.arange(h), np.arange(len(l) - h)])
+            elif kind == 4:     # random repeats
+                l.index = rng.integers(0, max(1, len(l) // 2), len(l))
+            else:
+                l.index = rng.permutation(len(l)) if kind == 0 else (np.arange(len(l))[::-1] * 3 + 2 if kind == 1 else np.sort(rng.choice(np.arange(3 * len(l) + 4), len(l), replace=False))[::-1])
     nops = int(rng.integers(1, 11))
     w = np.ones(len(OPS))
     for name, f in (WEIGHT[cls] or {}).items():
@@ -251,7 +257,11 @@ def run_case(ctx, case):
         if op == "subset":
             feature = str(rng.choice(["tomo_id", "object_id", "class", "geom2", "subtomo_id"]))
             vals = pick_values(rng, MA, feature)
+            if feature in ("class", "object_id", "geom2") and len(MA) and (MA[:, IX[feature]] == 0).any() and rng.random() < 0.4:
+                vals = [0.0]                 # a bare zero (class 0, object 0) is a value like any other
             arg = vals if (len(vals) > 1 or rng.random() < 0.5) else vals[0]
+            if len(vals) == 1 and not isinstance(arg, list) and rng.random() < 0.5:
+                arg = [int(arg) if float(arg).is_integer() else arg, np.float64(arg), np.int64(arg) if float(arg).is_integer() else np.float64(arg), -0.0 if arg == 0 else arg][int(rng.integers(0, 4))]
             reset = bool(rng.random() < 0.7)
             ok, r = ctx.call("get_motl_subset", A.get_motl_subset, arg, feature_id=feature, reset_index=reset)
             if not ok:
